@@ -246,7 +246,9 @@ fn le(v: u64, n: usize) -> Vec<u8> {
 }
 
 /// The complete single-mutation menu of a seed (deterministic).
-pub fn menu(seed: &Seed, with_unsealed: bool) -> Vec<Mutation> {
+/// `with_bombs`: the large crafted XML sections (they replace the whole document, so the seed only
+/// lends its binary sections and its root start tag: a few seeds are enough)
+pub fn menu(seed: &Seed, with_unsealed: bool, with_bombs: bool) -> Vec<Mutation> {
     let mut m: Vec<Mutation> = Vec::new();
     let size = seed.bytes.len() as u64;
     let rep = validate(&seed.bytes, &Options::default());
@@ -527,7 +529,7 @@ pub fn menu(seed: &Seed, with_unsealed: bool) -> Vec<Mutation> {
         m.push(Mutation::XmlRaw { bytes: Vec::new(), what: "XML replaced by nothing (length 0)".into() });
         // product bombs: k comments in front of the root element and k elements that the reader
         // looks at and skips (work proportional to k*k shows as minutes, linear work as milliseconds)
-        if with_unsealed {
+        if with_bombs {
             if let (Some(root_at), Some(d3)) = (xml.find("<e57Root").or_else(|| xml.find(":e57Root").and_then(|p| xml[..p].rfind('<'))), xml.find("<data3D")) {
                 if let Some(d3_end) = xml[d3..].find('>').map(|e| d3 + e + 1) {
                     if !xml[d3..d3_end].ends_with("/>") {
@@ -545,7 +547,7 @@ pub fn menu(seed: &Seed, with_unsealed: bool) -> Vec<Mutation> {
             }
         }
         // fragmentation bomb: the text of one scalar element split into 300000 pieces by comments
-        if with_unsealed {
+        if with_bombs {
             if let Some(g) = xml.find("<guid type=\"String\">").map(|p| p + 20) {
                 let mut doc = String::with_capacity(xml.len() + 8 * 300_000);
                 doc.push_str(&xml[..g]);
@@ -556,7 +558,7 @@ pub fn menu(seed: &Seed, with_unsealed: bool) -> Vec<Mutation> {
         }
         // counter bombs: many DISTINCT names (a parser that compares every new name with all earlier
         // ones needs quadratic time, one that also copies the inherited set per element cubic time)
-        if with_unsealed {
+        if with_bombs {
             if let Some(root_at) = xml.find("<e57Root").or_else(|| xml.find(":e57Root").and_then(|p| xml[..p].rfind('<'))) {
                 if let Some(tag_end) = crate::mutate::start_tag_end(&xml, root_at) {
                     for k in [500usize, 4_000, 30_000] {
@@ -593,6 +595,34 @@ pub fn menu(seed: &Seed, with_unsealed: bool) -> Vec<Mutation> {
                         doc.push_str(&xml[tag_end..]);
                         m.push(Mutation::XmlRaw { bytes: doc.into_bytes(), what: format!("{k} distinct attributes on the root element") });
                     }
+                    // the same floods behind an attribute value that contains the OTHER quote character
+                    // (a scanner that treats both quote characters alike loses track of where it is)
+                    for (lead, what) in [(" note=\"it's\"", "a double-quoted value containing an apostrophe"), (" note='say \"x\"'", "a single-quoted value containing double quotes")] {
+                        let mut doc = String::with_capacity(xml.len() + 16 * 150_000);
+                        doc.push_str(&xml[..tag_end]);
+                        doc.push_str(lead);
+                        for i in 0..150_000 {
+                            doc.push_str(&format!(" a{i}=\"\""));
+                        }
+                        doc.push_str(&xml[tag_end..]);
+                        m.push(Mutation::XmlRaw { bytes: doc.into_bytes(), what: format!("{what}, then 150000 distinct attributes on the root element") });
+                        let mut doc = String::with_capacity(xml.len() + 40 * 4000);
+                        doc.push_str(&xml[..tag_end]);
+                        doc.push_str(lead);
+                        for i in 0..1000 {
+                            doc.push_str(&format!(" xmlns:n{i}=\"u\""));
+                        }
+                        doc.push('>');
+                        doc.push_str(&"<x xmlns:p=\"q\"/>".repeat(20_000));
+                        doc.push_str(&xml[tag_end + 1..]);
+                        m.push(Mutation::XmlRaw { bytes: doc.into_bytes(), what: format!("{what}, then 1000 namespace declarations on the root element and 20000 children declaring one more") });
+                        let mut doc = String::new();
+                        doc.push_str(&xml[..tag_end]);
+                        doc.push_str(lead);
+                        doc.push('>');
+                        doc.push_str(&"<v:d xmlns:v=\"urn:v\">".repeat(20_000));
+                        m.push(Mutation::XmlRaw { bytes: doc.into_bytes(), what: format!("{what}, then 20000 nested open tags") });
+                    }
                     // many elements that each carry many distinct attributes (1000 x 1000, about 8 MB)
                     {
                         let mut attrs = String::new();
@@ -624,7 +654,7 @@ pub fn menu(seed: &Seed, with_unsealed: bool) -> Vec<Mutation> {
         }
         // repetition bombs: 2 MiB of one unterminated / unbalanced token (anything that rescans the
         // rest of the document per token needs time quadratic in the input size)
-        if with_unsealed {
+        if with_bombs {
             for tok in ["<!--", "<![CDATA[", "<a ", "<a b='", "&amp;", "&#x41;", "<?p ", "<!", "]]>", "-->", "<a xmlns:a='u'>", "<a/>", "</a>", "\"", "'", "<"] {
                 let body = tok.repeat(2 * 1024 * 1024 / tok.len());
                 let doc = format!("<?xml version=\"1.0\"?><e57Root type=\"Structure\" xmlns=\"http://www.astm.org/COMMIT/E57/2010-e57-v1.0\">{body}");
